@@ -82,7 +82,7 @@ pub fn run(ctx: &mut Ctx) -> bool {
         }
         "C18" => {
             ctx.max_shrink_iters = 48;
-            ctx.rule = "Cases are searches: for generated game-like positions (as C07) the search is run under the virtual clock at every expiry point 0..=K plus sampled deeper ones, and every captured info line of every run is parsed strictly as `info pv <moves> depth D nodes N score (cp X|mate Y) time T`; D >= 1 and non-decreasing, Y != 0 and |Y| <= 100, |X| <= 100000 and never the 9999999 sentinel, first pv move legal in the searched position (oracle), scores strictly increasing within one depth on a unified scale. Black-box part: the same line checks on the real binary's output in timed sessions. evaluations = searches executed. Non-trivial = a search emitting two or more lines at one depth or a mate score; distinct by game.".into();
+            ctx.rule = "Cases are searches: for generated game-like positions (as C07) the search is run under the virtual clock at every expiry point 0..=K plus sampled deeper ones, and every captured info line of every run is parsed strictly as `info pv <moves> depth D nodes N score (cp X|mate Y) time T`; D >= 1 and non-decreasing, Y != 0 and |Y| <= 100, |X| <= 100000 and never the 9999999 sentinel, first pv move legal in the searched position (oracle), scores strictly increasing within one depth on a unified scale. Black-box part: the same line checks on the real binary's output in timed sessions, and with enormous clocks (slices of 2^64 ms and beyond; the lines of the first half second are judged, then the process is killed). evaluations = searches executed. Non-trivial = a search emitting two or more lines at one depth or a mate score; distinct by game.".into();
             ctx.assumptions = vec!["output captured through the uci::send_to_gui hook (same formatting code path as stdout)".into()];
             search::run_expiry(ctx, search::Mode::C18);
             blackbox::run_c18_blackbox(ctx);
